@@ -36,9 +36,10 @@ const (
 	DgRequestOp          // BOOTREQUEST opcode (v4) / truncated header (v6)
 	DgGarbage            // undecodable
 	DgDup                // byte-for-byte copy of the previous datagram of the script
+	DgOddOp              // v4: opcode 3 (neither request nor reply); v6: as DgRequestOp
 )
 
-var dgNames = [...]string{"good", "bad", "wronghw", "reqop", "garbage", "dup"}
+var dgNames = [...]string{"good", "bad", "wronghw", "reqop", "garbage", "dup", "oddop"}
 
 type CallSpec struct {
 	ID       int
@@ -67,6 +68,7 @@ type ClientScenario struct {
 	Dgs     []DgSpec
 	CloseAt int64 // ticks; -1: harness closes after all calls returned
 	Horizon int64 // ticks; calls with Tries<0 are cancelled by the harness here (0 = none)
+	FailWrites []int // indices of WriteTo calls that fail with an injected error
 	Bound   int
 	Rules   string // which rule groups the oracle enforces: any of "ABCDE..." see oracle
 }
@@ -77,7 +79,7 @@ func (s *ClientScenario) String() string {
 	if s.V6 {
 		fam = "v6"
 	}
-	fmt.Fprintf(&b, "%s %s T=%d n=%d cap=%d close=%d calls=[", s.Name, fam, s.T, s.Tries, s.BufCap, s.CloseAt)
+	fmt.Fprintf(&b, "%s %s T=%d n=%d cap=%d close=%d failwrites=%v calls=[", s.Name, fam, s.T, s.Tries, s.BufCap, s.CloseAt, s.FailWrites)
 	for _, c := range s.Calls {
 		fmt.Fprintf(&b, "{id%d m%d start%d cancel%d dl%v after%d}", c.ID, c.Match, c.StartAt, c.CancelAt, c.Deadline, c.After)
 	}
@@ -128,6 +130,9 @@ func buildDg(v6 bool, d DgSpec, serial int) []byte {
 		if d.Kind == DgRequestOp {
 			p.OpCode = dhcpv4.OpcodeBootRequest
 		}
+		if d.Kind == DgOddOp {
+			p.OpCode = 3
+		}
 		return p.ToBytes()
 	}
 	m := &dhcpv6.Message{MessageType: dhcpv6.MessageTypeReply, TransactionID: xid6(d.ID)}
@@ -144,7 +149,7 @@ func buildDg(v6 bool, d DgSpec, serial int) []byte {
 		// a relay message is not a client message: must be dropped
 		r, _ := dhcpv6.EncapsulateRelay(m, dhcpv6.MessageTypeRelayReply, net.ParseIP("2001:db8::1"), net.ParseIP("fe80::2"))
 		return r.ToBytes()
-	case DgRequestOp:
+	case DgRequestOp, DgOddOp:
 		return m.ToBytes()[:3] // truncated header
 	}
 	return m.ToBytes()
@@ -212,6 +217,12 @@ func (s *ClientScenario) body(out **clientRun) func() {
 			respAtReturn: make([][]byte, len(s.Calls)), respNow: make([]func() []byte, len(s.Calls))}
 		*out = run
 		conn := NewConn(h)
+		if len(s.FailWrites) > 0 {
+			conn.FailWrite = map[int]bool{}
+			for _, k := range s.FailWrites {
+				conn.FailWrite[k] = true
+			}
+		}
 		T := time.Duration(s.T * Tick)
 		var send func(ctx context.Context, c CallSpec, idx int) (int, error)
 		var closeFn func() error
@@ -602,7 +613,16 @@ func (s *ClientScenario) checkClient(run *clientRun, ex *vs.Exec) (violation, ou
 				}
 			}
 		case ret.Err == "write":
-			if closeCall == nil || closeCall.Seq > ret.Seq {
+			injected := false
+			for i := range h.Ev {
+				if e := &h.Ev[i]; e.Kind == EvNote && e.Note == "write-fault" && e.Th == run.thOf[ci] && e.Seq > cv.inv.Seq && e.Seq < ret.Seq {
+					injected = true
+				}
+			}
+			if has("L") && injected && ret.T != cv.inv.T+T*((int64(1)<<uint(len(cv.tx)))-1) {
+				return fail("L4-write-error-instant", fmt.Sprintf("call %d reported the write error at t=%d, the failing transmission was due at t=%d", ci, ret.T, cv.inv.T+T*((int64(1)<<uint(len(cv.tx)))-1)))
+			}
+			if !injected && (closeCall == nil || closeCall.Seq > ret.Seq) {
 				return fail("R4-error", fmt.Sprintf("call %d failed with a write error but the connection was open", ci))
 			}
 		default:
